@@ -94,7 +94,7 @@ def make_state(inst, k, seed):
     if fam == "leave":
         regs[5] = cpu.WIN + 0x300 + (rnd(key, "bp") % 8) * 4
     if fam in ("loop", "loope", "loopne", "jecxz"):
-        regs[1] = [0, 1, 2, 3, 0x10000, 0xffffffff, 0x80000000][k % 7]
+        regs[1] = [0, 1, 2, 3, 0x10000, 0xffffffff, 0x80000000, 0x10001, 0x20000, 0xffff0001][k % 10]
     if fam in ("bt", "bts", "btr", "btc") and "m" in inst["form"]:
         pass
     if fam in ("div", "idiv"):
@@ -115,7 +115,7 @@ def make_state(inst, k, seed):
         data[j:j + 8] = rnd(key, "m", j).to_bytes(8, "little")
     stubs = []
     ind = inst.get("ind")
-    tgt = cpu.ENTRY + 0x100 + (rnd(key, "t") % 4) * 0x20
+    tgt = (cpu.ENTRY_LOW if inst.get("low") else cpu.ENTRY) + 0x100 + (rnd(key, "t") % 4) * 0x20
     if ind in ("eax", "ebx"):
         regs[GPR.index(ind)] = tgt
         stubs.append(tgt)
@@ -130,7 +130,12 @@ def make_state(inst, k, seed):
     return {"regs": regs, "eflags": fl, "data": bytes(data), "extra_stubs": stubs}
 
 
-def lift(code):
+def entry_of(inst):
+    """address the instruction runs at: 66-prefixed near branches (low=True) run below 64 KiB, where the 16-bit truncation of eip is harmless"""
+    return cpu.ENTRY_LOW if inst.get("low") else cpu.ENTRY
+
+
+def lift(code, entry=cpu.ENTRY):
     from miasmx.arch.ia32_arch import x86mnemo
     from miasmx.tools import emul_helper
     from miasmx.tools.modint import uint32
@@ -138,8 +143,8 @@ def lift(code):
     i = x86mnemo.dis(code)
     if i is None or i.l != len(code):
         return None, "decode"
-    i.offset = cpu.ENTRY
-    ex = emul_helper.get_instr_expr(i, ExprInt(uint32(cpu.ENTRY + i.l)), [])
+    i.offset = entry
+    ex = emul_helper.get_instr_expr(i, ExprInt(uint32(entry + i.l)), [])
     return (i, ex), None
 
 
@@ -209,10 +214,17 @@ def compare(inst, code, st, out, ex, segs):
         return "excluded:division_by_zero"
     if "*dest" in und:
         return "excluded:architecturally_undefined_result"
-    for a in list(writes) + list(reads):
+    for a in list(reads):
         if not (cpu.WIN <= a < cpu.WIN + cpu.WIN_LEN):
-            # the CPU did not fault (e.g. the address lies in the executor's own stack): nothing to compare against
+            # the CPU did not fault (e.g. the address lies in the executor's own stack): the value read is unknown, nothing to compare against
             return "excluded:access_outside_data_window"
+    # a lifted WRITE outside the window cannot be observed, but the window can: the bytes the processor changed inside it must still be
+    # bytes the lifted semantics write (66-prefixed call: the processor pushes at esp-2, the lifted semantics at (sp-2) & 0xffff)
+    outside = [a for a in writes if not (cpu.WIN <= a < cpu.WIN + cpu.WIN_LEN)]
+    if outside and bytes(st["data"]) == bytes(out["data"]):
+        return "excluded:access_outside_data_window"
+    for a in outside:
+        del writes[a]
     dest_undef_zero = "*dest_if_zero" in und
     for i, n in enumerate(GPR):
         if regs[i] != out["regs"][i]:
@@ -231,7 +243,7 @@ def compare(inst, code, st, out, ex, segs):
     if bytes(mem) != out["data"]:
         diff = [i for i in range(cpu.WIN_LEN) if mem[i] != out["data"][i]]
         probs.append(("memory", "bytes at window offsets %s: CPU %s, lifted %s" % (diff[:8], bytes(out["data"][i] for i in diff[:8]).hex(), bytes(mem[i] for i in diff[:8]).hex())))
-    nxt = cpu.ENTRY + len(code)
+    nxt = entry_of(inst) + len(code)
     want = eip if eip is not None else nxt
     if inst.get("targets"):
         # direct relative forms: the statement constrains "branch taken or not" and the fall-through address (the lifter is
@@ -260,7 +272,7 @@ def worker(run, st_, k, items):
     nstates = run.pick(64, 1200)
     for inst, code in items:
         try:
-            r, err = lift(code)
+            r, err = lift(code, entry_of(inst))
         except Exception as ex:
             st_.exclude("lifting_raises(C11):%s" % inst["family"])
             continue
@@ -276,8 +288,8 @@ def worker(run, st_, k, items):
         states = [make_state(inst, j, run.seed) for j in range(nstates)]
         cases = []
         for s in states:
-            stubs = [cpu.ENTRY + len(code)] + [cpu.ENTRY + t for t in inst.get("targets", [])] + s["extra_stubs"]
-            cases.append({"code": code, "stubs": stubs, "regs": s["regs"], "eflags": s["eflags"], "data": s["data"]})
+            stubs = [entry_of(inst) + len(code)] + [entry_of(inst) + t for t in inst.get("targets", [])] + s["extra_stubs"]
+            cases.append({"code": code, "stubs": stubs, "regs": s["regs"], "eflags": s["eflags"], "data": s["data"], "low": bool(inst.get("low"))})
         outs = c.run(cases)
         for j, (s, o) in enumerate(zip(states, outs)):
             st_.ev()
@@ -292,7 +304,7 @@ def worker(run, st_, k, items):
             if isinstance(v, str):
                 st_.exclude(v.split(":", 1)[1])
                 continue
-            changed = o["regs"] != s["regs"] or o["data"] != s["data"] or (o["eflags"] ^ s["eflags"]) & cpu.FLAG_MASK or o["marker"] != cpu.ENTRY + len(code)
+            changed = o["regs"] != s["regs"] or o["data"] != s["data"] or (o["eflags"] ^ s["eflags"]) & cpu.FLAG_MASK or o["marker"] != entry_of(inst) + len(code)
             if not v:
                 st_.klass("agree")
                 if changed:
@@ -336,15 +348,15 @@ def replay(run, case):
     c = cpu.CPU()
     segs = seg_values(c)
     try:
-        r, err = lift(code)
+        r, err = lift(code, entry_of(inst))
     except Exception:
         return None
     if err:
         return None
     i, ex = r
     s = make_state(inst, case["state"], run.seed if "seed" not in case else case["seed"])
-    stubs = [cpu.ENTRY + len(code)] + [cpu.ENTRY + t for t in inst.get("targets", [])] + s["extra_stubs"]
-    o = c.run([{"code": code, "stubs": stubs, "regs": s["regs"], "eflags": s["eflags"], "data": s["data"]}])[0]
+    stubs = [entry_of(inst) + len(code)] + [entry_of(inst) + t for t in inst.get("targets", [])] + s["extra_stubs"]
+    o = c.run([{"code": code, "stubs": stubs, "regs": s["regs"], "eflags": s["eflags"], "data": s["data"], "low": bool(inst.get("low"))}])[0]
     c.close()
     if o["fault"] is not None:
         return None
